@@ -22,6 +22,16 @@ def tlc_writer_model(ctx, quick):
         raise core.Infra("MC_Writer failed (specification problem, not a verdict on the code):\n" + r.out[-3000:])
     ctx.add("states", r.distinct)
     ctx.add("transitions", r.generated)
+    # the separator law for every ordered pair of keys up to length 3 (quick) / 4 (thorough) over the six-byte alphabet
+    wd = ctx.sub("mcb")
+    open(os.path.join(wd, "B.cfg"), "w").write(open(os.path.join(core.SPEC, "MC_Bytes.cfg")).read().replace("MaxLen = 3", "MaxLen = %d" % (3 if quick else 4)))
+    open(os.path.join(wd, "B.tla"), "w").write(open(os.path.join(core.SPEC, "MC_Bytes.tla")).read().replace("MODULE MC_Bytes", "MODULE B"))
+    rb = core.tlc("B", "B.cfg", workers=8, cwd=wd, timeout=1800, java_opts=["-DTLA-Library=" + core.SPEC])
+    if not rb.ok:
+        raise core.Infra("MC_Bytes (separator law) failed (specification problem):\n" + rb.out[-3000:])
+    ctx.add("states", rb.distinct)
+    ctx.add("transitions", rb.generated)
+    ctx.cov["separator_law_pairs"] = rb.distinct
     return r
 
 
